@@ -278,6 +278,38 @@ func c04Run(rc *sim.RunCtx) {
 			}
 		}
 	}
+	// two tenants: the same script compiled for a second tenant whose builtin module "host" has other contents under
+	// the same name; its program is encoded after, and decoded alternately with, the first tenant's
+	if t.Bool(1, 3) {
+		mm2 := newTenantModuleMap(mm)
+		bc2, err := compile(src, mm2, noOpt, 0)
+		if err == nil {
+			want := run(bc2)
+			var e2 bytes.Buffer
+			err1 := encoder.EncodeBytecodeTo(bc2, &e2)
+			_, errA := encoder.DecodeBytecodeFrom(bytes.NewReader(enc), mm)
+			d2, err2 := encoder.DecodeBytecodeFrom(bytes.NewReader(e2.Bytes()), mm2)
+			dA, errB := encoder.DecodeBytecodeFrom(bytes.NewReader(enc), mm)
+			rc.Fault("second-tenant-same-module-name")
+			if err1 != nil || err2 != nil || errA != nil || errB != nil {
+				rc.Decoded = map[string]any{"script": src}
+				rc.Fail("decode-failed", "tenant:decode-failed", "two programs compiled against different builtin modules of the same name: encode/decode failed (encode second: %v, decode second: %v, decode first: %v / %v)\n%s", err1, err2, errA, errB, src)
+				return
+			}
+			got := run(d2)
+			gotA := run(dA)
+			if !got.out.Equal(want.out) || got.trace != want.trace {
+				rc.Decoded = map[string]any{"script": src, "original": want.out.String(), "decoded": got.out.String()}
+				rc.Fail("round-trip-changes-behaviour", "tenant:second", "the second tenant's decoded program behaves differently from its original\n original: %s\n decoded:  %s\nscript:\n%s", want.out, got.out, src)
+				return
+			}
+			if !gotA.out.Equal(orig.out) || gotA.trace != orig.trace {
+				rc.Decoded = map[string]any{"script": src, "original": orig.out.String(), "decoded": gotA.out.String()}
+				rc.Fail("round-trip-changes-behaviour", "tenant:first", "the first tenant's program, decoded again after the second tenant's, behaves differently from its original\n original: %s\n decoded:  %s\nscript:\n%s", orig.out, gotA.out, src)
+				return
+			}
+		}
+	}
 	for gen, r := range []c08Result{r1, r2} {
 		if !r.out.Equal(orig.out) || r.trace != orig.trace {
 			what := "outcome"
